@@ -181,7 +181,7 @@ CHECKS = {
         category="model_checking",
         technique="bounded-exhaustive enumeration of reader inputs (all short strings, grammar trees, every single structural "
                   "mutation of seed files, dictionary mutations) against an outcome invariant",
-        text="(a) all 66 430 strings of length <=5 (quick) / 5 380 840 of length <=7 (thorough) over {< > / a \" = space & [}, bare and "
+        text="(a) all 597 871 strings of length <=6 (quick) / 48 427 561 of length <=8 (thorough) over {< > / a \" = space & [}, bare and "
              "inside a valid odML frame; (b) 4 912 grammar documents: every odML / unknown / upper-case element under the root, every "
              "pair of children of a Section and of a Property x text variants per slot (unparsable ids, dates, cardinalities incl. Unicode digits, values incl. one of 140 000 "
              "characters, dtypes), value x dtype x cardinality, duplicate names and ids, link/include combinations, XML attributes, PIs, comments, "
